@@ -311,7 +311,7 @@ def _validate_chunk(args):
     return (len(lines), rej, runs, states)
 
 
-def validate(lines, module, cfg, tag, nchunks=NCPU, maxfix=40):
+def validate(lines, module, cfg, tag, nchunks=NCPU, maxfix=12):
     """validate a trace (list of event lines) against a trace spec, in parallel chunks.
     returns dict(events, rejections, tlc_runs, states, chunks)"""
     if not lines:
@@ -381,6 +381,7 @@ class Check:
         self.forms = set()
         self.violations = []     # (what, replay_path[, signature])
         self.viol_sigs = {}
+        self.internal_rejections = []
         self.known_hits = {}
         self.other = {}          # rejections attributed to other properties (reported by their own checks)
         self.samples = []
@@ -444,7 +445,11 @@ class Check:
         kind = ev.get("k")
         prop = KIND2PROP.get(kind, self.prop)
         if ev.get("k") in ("rescale", "torque", "restore", "reset"):
-            raise ToolError("harness-internal event rejected: %s" % json.dumps(ev)[:400])
+            # a test-only hook event (rescaling / other coset member) is rejected only when the register it
+            # starts from already holds garbage installed by an earlier, already reported rejection (cascade);
+            # if nothing else was rejected in the whole run this is a harness fault (checked in finish)
+            self.internal_rejections.append(json.dumps(ev)[:300])
+            return
         if kinds is not None and kind in kinds:
             prop = self.prop
         if prop != self.prop:
@@ -472,6 +477,10 @@ class Check:
     # -- finishing
     def finish(self, level="model_checking", rule="", extra=None, assumptions=None):
         wall = time.time() - self.t0
+        if self.internal_rejections and not (self.violations or self.known_hits or self.other):
+            raise ToolError("harness-internal event rejected with no other rejection: " + self.internal_rejections[0])
+        if self.internal_rejections:
+            self.notes.append("%d hook events (rescale/torque) rejected after an already reported rejection (cascade)" % len(self.internal_rejections))
         for kid, cnt in self.known_hits.items():
             k = [x for x in self.known if x["id"] == kid][0]
             print("KNOWN-FINDING: property=%s %s (%d occurrence(s) this run)" % (self.prop, k["what"], cnt))
